@@ -5,6 +5,7 @@ import numpy as np
 import pandas as pd
 
 from .. import drv_adwin as D
+from ..core import pmap
 from ..drv_change import shifty_stream
 
 WRAPS = {"scalar": lambda x: x, "list": lambda x: [x], "array": lambda x: np.array([x]),
@@ -23,7 +24,7 @@ def run(ctx):
     n, ncfg = (9, 6) if q else (12, 16)
     ps = [D.params(rng, small=True) for _ in range(ncfg)]
     ps[0]["max_buckets"] = 1
-    traces = [D.run(p, [("update", x) for x in s]) for p in ps for s in itertools.product((0.0, 10.0), repeat=n)]
+    traces = pmap(D.run, [(p, [("update", x) for x in s]) for p in ps for s in itertools.product((0.0, 10.0), repeat=n)])
     ctx.validate("Adwin", traces, "ADWIN all 2^%d sequences x %d configurations" % (n, ncfg), sabotage=D.sabotage,
                  replay=replayer(traces))
     # long real-valued streams with level and variance shifts
